@@ -40,6 +40,10 @@ def cpu_list(vdir):
     return json.loads(subprocess.check_output([os.path.join(vdir, "conform"), "cpulist"]))
 
 
+def out_of_scope(prop):
+    return set(json.load(open(os.path.join(C.VERIF, "codec_scope.json"))).get(prop, []))
+
+
 FILLS = ["00" * 14, "ff" * 14, "55aa" * 7]
 
 
@@ -101,7 +105,8 @@ def run_dis(chk, tier, seed, want, only=None, tag="dis"):
     vdir = C.ensure_build("rel")
     cpus = cpu_list(vdir)
     by_name = {c["name"]: c for c in cpus}
-    sel = [c for c in cpus if only is None or c["name"] in only]
+    skip = out_of_scope(want)
+    sel = [c for c in cpus if (only is None or c["name"] in only) and c["name"] not in skip]
     cases = dis_cases(sel, tier, seed + (hash(tuple(sorted(only))) % 1000 if only else 0))
     obs = C.conform_parallel(vdir, "codec", cases, chk.rundir, tag, 5, nproc=C.NCPU)
     byid = {o["case"]: o for o in obs}
